@@ -170,6 +170,10 @@ def TABLES():
     calls.sort()
     out.append('-- drop_privileges: system calls and the exception class caught around each')
     out.append('def dp_calls : List (String × String) := %s' % _lean_list('(%s, %s)' % (lean_str(c), lean_str(g)) for _, c, g in calls))
+    # options.py read_config: is the [supervisord] environment copied for every process before the program's own is merged in
+    from sites.config import env_merge_loop
+    out.append("-- read_config: `env = section.environment.copy(); env.update(proc.environment); proc.environment = env` per process")
+    out.append('def read_config_env_copied : Bool := %s' % ('true' if env_merge_loop()['copied'] else 'false'))
     return out
 
 
